@@ -47,6 +47,7 @@ GLOBAL_RULES = [
     ("mono.type", r"\bStorageT\b", r"$T"),
     # rule 3: narrowing casts become obligations
     ("builtin:narrow", "narrow", None),
+    ("builtin:letchain", "letchain", None),
     ("mono.cast_unwrap", r"\bnum_traits::cast\(([^()]*)\)\.unwrap\(\)", r"(\1 as usize)"),
     # rule 4: documented refusals are allowed divergence
     # rule 4: panics are obligations
@@ -253,7 +254,67 @@ def builtin_narrow(seg, log, where):
     return seg
 
 
-BUILTINS = {"strlit": builtin_strlit, "narrow": builtin_narrow}
+def builtin_letchain(seg, log, where):
+    """`if A && let P = E { B }` (no else) -> `if A { if let P = E { B } }`: Verus has no
+    let-chains; without an else branch nesting is the same program."""
+    k = 0
+    pos = 0
+    while True:
+        masked = rustlex.mask(seg)
+        m = re.compile(r"\bif\b").search(masked, pos)
+        if not m:
+            break
+        # find the `{` opening the body: first `{` at (), [] depth 0
+        i, depth = m.end(), 0
+        while i < len(masked):
+            c = masked[i]
+            if c in "([":
+                depth += 1
+            elif c in ")]":
+                depth -= 1
+            elif c == "{" and depth == 0:
+                break
+            elif c == ";" and depth == 0:
+                i = -1
+                break
+            i += 1
+        if i < 0 or i >= len(masked):
+            pos = m.end()
+            continue
+        cond_a, cond_b = m.end(), i
+        # split at top-level &&
+        parts, depth, last = [], 0, cond_a
+        j = cond_a
+        while j < cond_b:
+            c = masked[j]
+            if c in "([":
+                depth += 1
+            elif c in ")]":
+                depth -= 1
+            elif depth == 0 and masked.startswith("&&", j):
+                parts.append(seg[last:j])
+                last = j + 2
+                j += 1
+            j += 1
+        parts.append(seg[last:cond_b])
+        if len(parts) < 2 or not any(re.match(r"\s*let\b", x) for x in parts):
+            pos = m.end()
+            continue
+        close = rustlex.match_brace(masked, cond_b)
+        after = masked[close + 1:close + 40].lstrip()
+        if after.startswith("else"):
+            raise LostAnchor("let-chain with an else branch in %s is outside the dialect" % where)
+        head = " { ".join("if " + x.strip() for x in parts)
+        body = seg[cond_b:close + 1]
+        seg = seg[:m.start()] + head + " " + body + " }" * (len(parts) - 1) + seg[close + 1:]
+        k += 1
+        pos = m.start() + 2
+    if k:
+        log.append({"rule": "builtin:letchain", "matches": k, "where": where})
+    return seg
+
+
+BUILTINS = {"strlit": builtin_strlit, "narrow": builtin_narrow, "letchain": builtin_letchain}
 
 
 def apply_rules(seg, rules, log, where):
